@@ -28,6 +28,8 @@ var Harnesses = map[string]func(){
 	"cont.H_Builtins":         cont.H_Builtins,
 	"cont.H_Reserved":         cont.H_Reserved,
 	"cont.H_Faults":           cont.H_Faults,
+	"cont.H_SharedCodeConc":   cont.H_SharedCodeConc,
+	"cont.H_Rebuild":          cont.H_Rebuild,
 	"cont.H_Instances":        cont.H_Instances,
 	"cont.H_ReleaseChild":     cont.H_ReleaseChild,
 	"cont.H_CloseInCallback":  cont.H_CloseInCallback,
